@@ -785,11 +785,11 @@ struct LfWorker
 {
   muduo::LogFile* lf;
   int t;
-  unsigned n, burst;
+  unsigned n, burst, tick;
   LenSpec spec;
   std::atomic<bool> done;
   pthread_t th;
-  LfWorker() : lf(NULL), t(0), n(0), burst(0), spec("1"), done(false) {}
+  LfWorker() : lf(NULL), t(0), n(0), burst(0), tick(16), spec("1"), done(false) {}
 };
 
 static void* lfWorkerMain(void* arg)
@@ -805,6 +805,9 @@ static void* lfWorkerMain(void* arg)
     t_lfThread = w->t;
     t_lfIndex = static_cast<long>(i);
     w->lf->append(&buf[0], len);
+    // the virtual clock advances with the work, not with real time: the amount appended per virtual second
+    // (hence the size of the files and the cost of replaying them on the model) does not depend on the machine load
+    if (w->tick && ((i + 1) % w->tick) == 0) g_vnow.fetch_add(1);
     if (w->burst && ((i + 1) % w->burst) == 0) sched_yield();
   }
   w->done.store(true);
@@ -839,6 +842,7 @@ static void runLogFileFree(const std::vector<string>& hdr)
       ws.back()->t = t;
       ws.back()->n = n;
       ws.back()->burst = burst;
+      ws.back()->tick = static_cast<unsigned>(atol(hdrGet(hdr, "tick", "16").c_str()));
       ws.back()->spec = spec;
       ws.back()->spec.seed += static_cast<uint32_t>(t) * 977u;
     }
@@ -848,7 +852,7 @@ static void runLogFileFree(const std::vector<string>& hdr)
       bool all = true;
       for (int t = 0; t < T; ++t) if (!ws[t]->done.load()) all = false;
       if (all) break;
-      usleep(200);
+      usleep(5000);
       g_vnow.fetch_add(1);
     }
     for (int t = 0; t < T; ++t) pthread_join(ws[t]->th, NULL);
